@@ -21,6 +21,7 @@ type FOpts struct {
 	FailRate         float64
 	InitStates       []string // subset of absent fresh stale toostale
 	FixedConf        *FConf
+	NoLongSleeps     bool
 }
 
 // FOut is the outcome of one scenario.
@@ -87,6 +88,7 @@ func GenFailover(t *testing.T, rng *rand.Rand, o FOpts) FOut {
 
 	synctest.Test(t, func(t *testing.T) {
 		r := NewFEngine(t, rng, conf)
+		r.PostParks = rng.Intn(3) != 0
 
 		defer r.Close()
 
@@ -135,12 +137,20 @@ func GenFailover(t *testing.T, rng *rand.Rand, o FOpts) FOut {
 			if o.Hostile {
 				g.Cancel = rng.Intn(2) == 0
 				g.Rewrite = rng.Intn(2) == 0
+
+				if rng.Intn(3) == 0 {
+					g.Deadline = int64(time.Hour)
+				}
 			}
 
 			gets = append(gets, g)
 		}
 
-		pol := Policy{FaultProb: o.FaultProb, ArriveEarly: 0.45, SleepProb: 0.1, Sleeps: []int64{1, int64(time.Second)}, MaxSteps: 2000}
+		pol := Policy{FaultProb: o.FaultProb, ArriveEarly: 0.45, SleepProb: 0.12, MaxSteps: 2000,
+			Sleeps: []int64{1, int64(time.Second), int64(6 * time.Second), int64(12 * time.Second), int64(25 * time.Second), int64(61 * time.Second)}}
+		if o.NoLongSleeps {
+			pol.Sleeps = []int64{1, int64(time.Second)}
+		}
 		r.Exec(gets, pol)
 		locks = r.KeyLocks()
 
